@@ -157,11 +157,11 @@ class DataPath:
 
         REPLACE = "path"
         ESC_CODE = rf"\{REPLACE}"
-        if any(ESC_CODE in k for k in spec):
+        if any(isinstance(k, str) and ESC_CODE in k for k in spec):
             # a literal mapping whose keys look like a path spec: un-escape the keys in a new
             # mapping (the caller's `spec` is left as it is, so it can be parsed again)
             return {
-                (k.replace(ESC_CODE, REPLACE) if ESC_CODE in k else k): v
+                (k.replace(ESC_CODE, REPLACE) if isinstance(k, str) else k): v
                 for k, v in spec.items()
             }
 
@@ -568,14 +568,14 @@ class ContainerValue:
             condition = condition & new_cond
 
         # shorthand specs:
-        value_short_keys = [i for i in spec if i.startswith("value.")]
+        value_short_keys = [i for i in spec if isinstance(i, str) and i.startswith("value.")]
         value_short_cond_specs = {i: spec.pop(i) for i in value_short_keys}
         for spec_k, spec_v in value_short_cond_specs.items():
             condition = condition & cnds.ConditionLike.from_spec({spec_k: spec_v})
 
         if cls == MapValue:
             # shorthand specs:
-            key_short_keys = [i for i in spec if i.startswith("key.")]
+            key_short_keys = [i for i in spec if isinstance(i, str) and i.startswith("key.")]
             key_short_cond_specs = {i: spec.pop(i) for i in key_short_keys}
             for spec_k, spec_v in key_short_cond_specs.items():
                 condition = condition & cnds.ConditionLike.from_spec({spec_k: spec_v})
@@ -592,7 +592,7 @@ class ContainerValue:
 
         elif cls == ListValue:
             # shorthand specs:
-            index_short_keys = [i for i in spec if i.startswith("index.")]
+            index_short_keys = [i for i in spec if isinstance(i, str) and i.startswith("index.")]
             index_short_cond_specs = {i: spec.pop(i) for i in index_short_keys}
             for spec_k, spec_v in index_short_cond_specs.items():
                 condition = condition & cnds.ConditionLike.from_spec({spec_k: spec_v})
@@ -609,7 +609,7 @@ class ContainerValue:
 
         elif cls == MapOrListValue:
             # shorthand specs:
-            index_short_keys = [i for i in spec if i.startswith("index.")]
+            index_short_keys = [i for i in spec if isinstance(i, str) and i.startswith("index.")]
             index_short_cond_specs = {i: spec.pop(i) for i in index_short_keys}
             for spec_k, spec_v in index_short_cond_specs.items():
                 list_condition = list_condition & cnds.ConditionLike.from_spec(
@@ -617,7 +617,7 @@ class ContainerValue:
                 )
 
             # shorthand specs:
-            key_short_keys = [i for i in spec if i.startswith("key.")]
+            key_short_keys = [i for i in spec if isinstance(i, str) and i.startswith("key.")]
             key_short_cond_specs = {i: spec.pop(i) for i in key_short_keys}
             for spec_k, spec_v in key_short_cond_specs.items():
                 map_condition = map_condition & cnds.ConditionLike.from_spec(
